@@ -42,6 +42,12 @@ def gen(ctx):
             cases.append((si, IO.fmt_dat(IO.gen_dat(inf, rnd, p, maxcells=mc))))
         if si % 5 == 0:      # a large array now and then: a block-wise reader/writer must not depend on 256/512-scalar boundaries
             cases.append((si, IO.fmt_dat(IO.gen_dat(inf, rnd, "special", maxcells=rnd.choice([1200, 2600]), ext_pool=[5, 6, 7, 9, 11, 13]))))
+    # thousands of cells of an odd width (3 components): staging blocks of a block-wise writer / reader do not fill on cell boundaries
+    big3 = [si for si, s in enumerate(stacks) if IO.analyse(s).gen[-1][0] == "A" and IO.analyse(s).gen[-1][2] == 3]
+    for si in big3[:3] if ctx.quick else big3:
+        inf = IO.analyse(stacks[si])
+        bare = not any(g[0] == "S" for g in inf.gen)
+        cases.append((si, IO.fmt_dat(IO.gen_dat(inf, rnd, "mixed", maxcells=24000, ext_pool=[5600, 6001] if bare else [18, 19, 75]))))
     return stacks, cases
 
 
